@@ -9,6 +9,7 @@ import (
 	"github.com/freeconf/yang/fc"
 	"github.com/freeconf/yang/node"
 	"github.com/freeconf/yang/nodeutil"
+	"github.com/freeconf/yang/parser"
 
 	"verif/core"
 	"verif/dp"
@@ -112,7 +113,59 @@ func schemaAt(s *dp.Schema, p dp.DPath) *dp.SNode {
 
 func hostileKey(p dp.DPath) bool { return !plainKeys(p) }
 
+// terminal nodes of every kind: leaf, leaf-list, anydata, anyxml at the top, in a container and in a list entry, in every spelling
+func (pp c08) terminals(c *core.Ctx) {
+	m, err := parser.LoadModuleFromString(nil, `module a { namespace "urn:a"; prefix a; revision 2020-01-01;
+  container c { anydata blob; anyxml doc; leaf x { type string; } leaf-list ll { type int32; }
+    list l { key k; leaf k { type string; } anydata cfg; leaf v { type int8; } } }
+  anydata top; leaf tl { type boolean; } }`)
+	if err != nil {
+		c.Violate("terminals/load", "%v", err)
+		return
+	}
+	n, err := nodeutil.ReadJSON(`{"c":{"blob":{"a":1},"doc":{"b":2},"x":"v","ll":[1,2],"l":[{"k":"k1","cfg":{"z":1},"v":5}]},"top":{"q":1},"tl":true}`)
+	if err != nil {
+		c.Violate("terminals/read", "%v", err)
+		return
+	}
+	b := node.NewBrowser(m, n)
+	for _, t := range []struct{ path, ident, want string }{
+		{"c/blob", "blob", "map[a:1]"}, {"c/doc", "doc", "map[b:2]"}, {"c/x", "x", "v"}, {"c/ll", "ll", "[1 2]"}, {"c/l=k1/cfg", "cfg", "map[z:1]"},
+		{"c/l=k1/v", "v", "5"}, {"top", "top", "map[q:1]"}, {"tl", "tl", "true"},
+	} {
+		segs := strings.Split(t.path, "/")
+		q := make([]string, len(segs))
+		for i, sg := range segs {
+			q[i] = "a:" + sg
+		}
+		for _, sp := range []string{t.path, t.path + "/", strings.Join(q, "/")} {
+			c.Eval()
+			c.Shape("terminal/%s/%s", t.ident, strings.NewReplacer(t.path, "P", strings.Join(q, "/"), "Q").Replace(sp))
+			var sel *node.Selection
+			var ferr error
+			if c.Guard("Find "+sp, func() { sel, ferr = b.Root().Find(sp) }) {
+				continue
+			}
+			if ferr != nil || sel == nil {
+				c.Violate("terminals/not-found/"+t.ident, "Find(%q) = %v, %v although the node exists", sp, sel, ferr)
+				continue
+			}
+			if sel.Path.Meta.Ident() != t.ident {
+				c.Violate("terminals/wrong-meta/"+t.ident, "Find(%q) landed on %s (%s), want the %s node", sp, sel.Path.Meta.Ident(), sel.Path.String(), t.ident)
+				continue
+			}
+			v, gerr := sel.Get()
+			if gerr != nil || v == nil || fmt.Sprint(v.Value()) != t.want {
+				c.Violate("terminals/wrong-content/"+t.ident, "Find(%q).Get() = %v, %v, want %s", sp, v, gerr, t.want)
+			}
+		}
+	}
+}
+
 func (pp c08) Run(c *core.Ctx, idx int) {
+	if idx == 0 {
+		pp.terminals(c)
+	}
 	r := c.Rand
 	o := dp.DefaultGen()
 	o.MaxDepth = 2 + r.Intn(4)
